@@ -1,8 +1,8 @@
 package batchproc
 
 import (
-	"encoding/binary"
 	"context"
+	"encoding/binary"
 	"fmt"
 	"regexp"
 	"runtime"
@@ -117,7 +117,7 @@ type History struct {
 	// Deadlock: the bubble froze on a lock before the scenario ended (Run's
 	// watchdog); the history holds nothing else then
 	Deadlock string
-	SetupErr         error
+	SetupErr error
 }
 
 type sink struct {
